@@ -29,5 +29,9 @@ for sid in sorted(os.listdir(os.path.join(R, 'seeded'))):
         caught, ob = ('no — UNDECIDED (exit 2)' if m.group(6) == '2' else 'no'), meta.get('why_missed', '')
     rows.append('| %s | %s | %s | %s | %s |' % (sid, meta['property'], what, caught, ob))
 doc = doc.replace('@SEEDED_TABLE@', '\n'.join(rows))
+kf = json.load(open(os.path.join(R, 'known_findings.json')))
+nfixed = len(re.findall(r'^\| \d+ \|', parts[2], re.M))      # rows of table 7.1 (one per fix: commit)
+nopen = len(kf['findings'])
+doc = doc.replace('@NFIXED@', str(nfixed)).replace('@NOPEN@', str(nopen)).replace('@NDEFECTS@', str(nfixed + nopen))
 open(os.path.join(R, 'DESIGN.md'), 'w').write(doc)
 print('DESIGN.md written: %d lines, %d seeds' % (doc.count('\n'), len(rows) - 2))
